@@ -13,6 +13,7 @@ CONSTANTS
   Modes <- AllModes
   Pairs = FALSE
   SWs <- BothSW
+  SameWriter = FALSE
   PoolAny = TRUE
   Bug = "noreset"
   Emit = FALSE
